@@ -580,6 +580,36 @@ pub fn apply_checks(checks: &[&str], m: &GraphModel, orc: &Oracle, cfg: &Config,
     vs
 }
 
+/// The structured larger graphs (gm::structured) x init sets x a few boundaries (full; without the middle
+/// node; without the last node), sharded. `f` gets the core model and a running index.
+pub fn for_each_structured(shard: u64, nshards: u64, mut f: impl FnMut(GraphModel, u64)) {
+    let mut counter = 0u64;
+    for (_name, succ, inits) in structured() {
+        let n = succ.len();
+        let full = ((1u32 << n) - 1) as u8;
+        for init in &inits {
+            for b in [full, full & !(1 << (n / 2)), full & !(1 << (n - 1))] {
+                counter += 1;
+                if counter % nshards != shard {
+                    continue;
+                }
+                f(GraphModel { succ: succ.clone(), inits: init.clone(), boundary: b, props: vec![], panic_on: None, panic_thread: None }, counter);
+            }
+        }
+    }
+}
+
+/// masks worth labelling a larger graph with: nothing, everything, every single state, every all-but-one
+fn structured_masks(n: usize) -> Vec<u8> {
+    let full = ((1u32 << n) - 1) as u8;
+    let mut v = vec![0, full];
+    for s in 0..n {
+        v.push(1 << s);
+        v.push(full & !(1 << s));
+    }
+    v
+}
+
 fn thorough(a: &Args) -> bool {
     a.tier == "thorough"
 }
@@ -645,6 +675,24 @@ pub fn run_c01(a: &Args, shared: &SharedReport) {
             }
         });
     }
+    // the structured larger graphs: deeper paths and wider frontiers, every block size that cuts them differently
+    for_each_structured(a.shard, a.nshards, |mut m, k| {
+        m.props = vec![always_true()];
+        let orc = Oracle::new(&m);
+        for st in exhaustive_strategies() {
+            for b in [None, Some(1), Some(2), Some(3)] {
+                run.case(&m, &orc, &Config { block: b, ..Config::plain(st.clone()) }, None);
+            }
+            if th || k % 4 == 0 {
+                for t in [2usize, 3] {
+                    run.case(&m, &orc, &Config { threads: t, block: Some(1), ..Config::plain(st.clone()) }, None);
+                    if th {
+                        run.case(&m, &orc, &Config { threads: t, block: Some(2), ..Config::plain(st.clone()) }, None);
+                    }
+                }
+            }
+        }
+    });
 }
 
 // ---- C02 / C13 -----------------------------------------------------------------------------------
@@ -718,6 +766,36 @@ pub fn run_c02(a: &Args, shared: &SharedReport) {
             }
         });
     }
+    for_each_structured(a.shard, a.nshards, |core, k| {
+        let n = core.n();
+        let orc = Oracle::new(&core);
+        let masks = structured_masks(n);
+        for (i, &m1) in masks.iter().enumerate() {
+            // quick: three sometimes-masks per always-mask; thorough: all pairs
+            let m2s: Vec<u8> = if th { masks.clone() } else { vec![masks[(i * 7 + 3) % masks.len()], masks[(i * 5 + 1) % masks.len()], !m1 & masks[1]] };
+            for m2 in m2s {
+                let props = if (i + m2 as usize) % 3 == 0 {
+                    vec![(Expectation::Sometimes, 0), (Expectation::Always, m1), (Expectation::Sometimes, m2)]
+                } else {
+                    vec![(Expectation::Always, m1), (Expectation::Sometimes, m2)]
+                };
+                let m = GraphModel { props, ..core.clone() };
+                let mut strategies = vec![Strategy::Bfs, Strategy::Dfs, Strategy::OnDemand];
+                if is_swap_symmetric(&m) {
+                    strategies.push(Strategy::DfsSym);
+                }
+                for st in strategies {
+                    let b = [None, Some(1), Some(2), Some(3)][(i + k as usize) % 4];
+                    run.case(&m, &orc, &Config { block: b, ..Config::plain(st.clone()) }, None);
+                    if th && (i + m2 as usize) % 8 == 0 {
+                        for t in [2usize, 3] {
+                            run.case(&m, &orc, &Config { threads: t, block: Some(1), ..Config::plain(st.clone()) }, None);
+                        }
+                    }
+                }
+            }
+        }
+    });
 }
 
 pub fn run_c13(a: &Args, shared: &SharedReport) {
@@ -760,6 +838,18 @@ pub fn run_c13(a: &Args, shared: &SharedReport) {
             }
         });
     }
+    for_each_structured(a.shard, a.nshards, |core, k| {
+        let n = core.n();
+        let orc = Oracle::new(&core);
+        let masks = structured_masks(n);
+        for (i, &m1) in masks.iter().enumerate() {
+            for m2 in [masks[(i * 7 + 3) % masks.len()], !m1 & masks[1], m1] {
+                let m = GraphModel { props: vec![(Expectation::Always, m1), (Expectation::Sometimes, m2), (Expectation::Sometimes, 0)], ..core.clone() };
+                let b = [None, Some(1), Some(2), Some(3)][(i + k as usize) % 4];
+                run.case(&m, &orc, &Config { block: b, ..Config::plain(Strategy::Bfs) }, None);
+            }
+        }
+    });
 }
 
 // ---- C03 / C11 -----------------------------------------------------------------------------------
@@ -846,7 +936,7 @@ fn run_eventually(a: &Args, shared: &SharedReport, checks: Vec<&'static str>, wi
                         idx += 1;
                         let m = GraphModel { props, ..core.clone() };
                         let mut strategies = exhaustive_strategies();
-                        if is_swap_symmetric(&m) && th {
+                        if is_swap_symmetric(&m) {
                             strategies.push(Strategy::DfsSym);
                         }
                         for st in &strategies {
@@ -884,6 +974,53 @@ fn run_eventually(a: &Args, shared: &SharedReport, checks: Vec<&'static str>, wi
             }
         });
     }
+    for_each_structured(a.shard, a.nshards, |core, k| {
+        let n = core.n();
+        let orc = Oracle::new(&core);
+        let masks = structured_masks(n);
+        let mut idx = k as u32;
+        for (i, &ma) in masks.iter().enumerate() {
+            let mb = masks[(i * 5 + 2) % masks.len()];
+            for (pi, props) in eventually_propsets(n, ma, mb, th).into_iter().enumerate() {
+                if !th && (pi + i) % 3 != 0 {
+                    continue;
+                }
+                idx += 1;
+                let m = GraphModel { props, ..core.clone() };
+                let mut strategies = exhaustive_strategies();
+                if is_swap_symmetric(&m) {
+                    strategies.push(Strategy::DfsSym);
+                }
+                for st in &strategies {
+                    let b = [None, Some(1), Some(2), Some(3)][(idx % 4) as usize];
+                    run.case(&m, &orc, &Config { block: b, ..Config::plain(st.clone()) }, None);
+                    if th && idx % 8 == 0 {
+                        for t in [2usize, 3] {
+                            run.case(&m, &orc, &Config { threads: t, block: Some(1), ..Config::plain(st.clone()) }, None);
+                        }
+                    }
+                    if idx % 3 == 0 {
+                        for d in [2usize, 3, 4, 6] {
+                            run.case(&m, &orc, &Config { target_depth: Some(d), block: b, ..Config::plain(st.clone()) }, None);
+                        }
+                    }
+                    if with_limits && idx % 4 == 0 {
+                        for f in [Finish::Any, Finish::AnyFailures, Finish::AnyOf(vec![1])] {
+                            run.case(&m, &orc, &Config { finish: f, block: b, ..Config::plain(st.clone()) }, None);
+                        }
+                        run.case(&m, &orc, &Config { target_states: Some(3), block: b, ..Config::plain(st.clone()) }, None);
+                    }
+                }
+                let seeds = if th { 8 } else if idx % 4 == 0 { 3 } else { 1 };
+                for st in sim_strategies(&m, seeds, idx % 16 == 1) {
+                    run.case(&m, &orc, &Config { target_states: Some(24), ..Config::plain(st.clone()) }, None);
+                    if idx % 4 == 1 {
+                        run.case(&m, &orc, &Config { target_states: Some(24), target_depth: Some(3), ..Config::plain(st) }, None);
+                    }
+                }
+            }
+        }
+    });
 }
 
 pub fn run_c03(a: &Args, shared: &SharedReport) {
@@ -1003,6 +1140,43 @@ pub fn run_c12_graphs(a: &Args, shared: &SharedReport) {
             }
         });
     }
+    for_each_structured(a.shard, a.nshards, |core, k| {
+        let n = core.n();
+        let orc = Oracle::new(&core);
+        if orc.size() < 2 {
+            return;
+        }
+        let m = GraphModel { props: vec![always_true()], ..core.clone() };
+        for st in [Strategy::Bfs, Strategy::Dfs, Strategy::OnDemand, Strategy::SimUniform(k)] {
+            let sim = st.is_sim();
+            let b = [None, Some(1), Some(2), Some(3)][(k % 4) as usize];
+            let full = if sim { None } else { Some(run_case(&m, &Config { block: b, ..Config::plain(st.clone()) })) };
+            if !sim {
+                for c in 1..=(n + 2) {
+                    run.case(&m, &orc, &Config { target_states: Some(c), block: b, ..Config::plain(st.clone()) }, full.as_ref());
+                }
+            }
+            for d in 1..=7 {
+                run.case(&m, &orc, &Config { target_depth: Some(d), block: b, target_states: if sim { Some(20) } else { None }, ..Config::plain(st.clone()) }, None);
+                if th && !sim {
+                    run.case(&m, &orc, &Config { target_depth: Some(d), threads: 2, block: Some(1), ..Config::plain(st.clone()) }, None);
+                }
+            }
+        }
+        let masks = structured_masks(n);
+        let mut fi = k as usize;
+        for (i, &m1) in masks.iter().enumerate() {
+            let m2 = masks[(i * 7 + 3) % masks.len()];
+            let m = GraphModel { props: vec![(Expectation::Always, m1), (Expectation::Sometimes, m2), (Expectation::Always, m1 | m2)], ..core.clone() };
+            for st in [Strategy::Bfs, Strategy::Dfs, Strategy::OnDemand] {
+                let all = [Finish::Any, Finish::AnyFailures, Finish::AllFailures, Finish::AllOf(vec![0, 1]), Finish::AnyOf(vec![1, 2]), Finish::AllOf(vec![]), Finish::AnyOf(vec![])];
+                fi += 1;
+                for f in [all[fi % 7].clone(), all[(fi + 3) % 7].clone()] {
+                    run.case(&m, &orc, &Config { finish: f, block: Some(1 + fi % 2), ..Config::plain(st.clone()) }, None);
+                }
+            }
+        }
+    });
 }
 
 // ---- replay ---------------------------------------------------------------------------------------
